@@ -110,6 +110,9 @@ Proof.
   rewrite nth_error_map, Hd. reflexivity.
 Qed.
 
+(* Queries are leaf POSITIONS in the model ([Some (0, pos)]).  The Go GenerateProof takes leaf HASHES and resolves them
+   through a single-valued hash -> location index; that resolution is outside the model and is unambiguous only when the
+   node hashes of the tree are pairwise distinct (known finding c11:seq:stale-hash-index for repeated values + Update). *)
 (* PARTIAL (one query).  Full statement aimed at: for every list of leaf positions, GenerateProof followed by VerifyProof
    against mroot l is true.  Proved: for ONE queried leaf, every tree size 1 <= n <= 2^29, with the store answering
    node (k, i) by the value of that node ([node_of]).  Missing: several queries at once (the prover merges adjacent
